@@ -299,6 +299,14 @@ func execute(r *core.Run, c *Case) {
 				for _, o := range c.Ops {
 					ev += 2 * o
 				}
+				if ev%5 == 4 && (mt != sims.JWS || ev%3 == 0) {
+					// variant: everything in order except that the expiry is later than
+					// the signing time only by a fraction of the same second (what an
+					// envelope can carry is whole seconds: not later)
+					req.SigningTime = sims.SignTime.Add(100 * time.Millisecond)
+					req.Expiry = sims.SignTime.Add(900 * time.Millisecond)
+					r.Count("early-fail-expiry-later-only-within-the-second", 1)
+				}
 				if mt == sims.JWS && ev%3 == 1 {
 					// variant: everything in order except that something follows the
 					// payload's JSON object
